@@ -6,8 +6,9 @@ cd "$(dirname "$0")"
 export CARGO_NET_OFFLINE=true
 # kernel translator: build it and regenerate coq/Gen/*.v from the current source (docs/RS2V.md)
 python3 lib/rs2v.py
+mkdir -p work
 python3 lib/glue.py
-( cd coq && coq_makefile -f _CoqProject -o Makefile >/dev/null && timeout 7000 make -j16 >/tmp/verif-coq-build.log 2>&1 || { tail -50 /tmp/verif-coq-build.log; exit 1; } )
+( cd coq && coq_makefile -f _CoqProject -o Makefile >/dev/null && timeout 7000 make -j16 >../work/coq-build.log 2>&1 || { tail -50 ../work/coq-build.log; exit 1; } )
 python3 - <<'PY'
 import sys; sys.path.insert(0, 'lib')
 import runner
